@@ -90,6 +90,17 @@ def run_case(case):
     if not e <= (1e-11 if prec == "double" else 5e-6):
         viol.append({"what": "background_is_not_a_uniform_offset", "rel": e, "bg": bg, "precision": prec, "analytic": analytic,
                      "spread": float(np.ptp(off)), "setup": desc})
+    # the same in footprint mode: the background offsets the concentration Green's function uniformly and leaves the weights alone
+    if case["idx"] % 2 == 0:
+        pf0, ff0 = run(np.zeros((ny, nx)), 0.0, footprint=True)
+        pfb, ffb = run(np.zeros((ny, nx)), bg_arg, footprint=True)
+        counters["footprint_background_runs"] = counters.get("footprint_background_runs", 0) + 1
+        eo = float(np.max(np.abs(pfb - pf0 - bg))) / (abs(bg) + float(np.max(np.abs(pf0))))
+        ew = float(np.max(np.abs(ffb - ff0))) / (float(np.max(np.abs(ff0))) or 1.0)
+        if not eo <= (1e-11 if prec == "double" else 5e-6):
+            viol.append({"what": "background_is_not_a_uniform_offset", "mode": "footprint", "rel": eo, "bg": bg, "precision": prec, "analytic": analytic, "setup": desc})
+        if not ew <= 1e-12:
+            viol.append({"what": "flux_depends_on_background", "mode": "footprint", "rel": ew, "bg": bg, "precision": prec, "analytic": analytic, "setup": desc})
     # the zero source (a night-time step, a masked map): the linear map sends (0, bg) to a uniform bg and no flux, on the input grid
     pz, fz = run(np.zeros((ny, nx)), bg_arg)
     counters["zero_source_runs"] = counters.get("zero_source_runs", 0) + 1
